@@ -118,4 +118,42 @@ theorem not_blocked_full_false : ¬ not_blocked_full := by
   intro h
   exact absurd (h {} putNested fsNew 4 ⟨by decide, by decide⟩ (by decide) (by decide)) (by decide)
 
+/-! ### 7. what stays open with every committed repair switched on (`nowCfg` = the backend as committed:
+    atomic replace, PutObject's and CopyObject's tags on the temp file) -/
+
+def nowCfg : Cfg := { atomicReplace := true, tagsFirst := true, copyTagsFirst := true }
+def nowV : Cfg := { nowCfg with verDir := true, vstatus := .enabled }
+
+theorem versions_duplicate_now :
+    (versions nowV (crashAt 14 (plan nowV putK fsVer) fsVer) ["k"]).map (fun v => (v.vid, v.latest)) = [("v1", true), ("v1", false)] := by
+  decide
+
+theorem upload_left_over_now :
+    (view nowCfg (crashAt 4 (plan nowCfg complK fsMp) fsMp) ["k"]).map (·.data) = some "p1" ∧
+    uploads nowCfg (crashAt 4 (plan nowCfg complK fsMp) fsMp) ["k"] = ["U0"] ∧
+    uploads nowCfg (run (plan nowCfg complK fsMp) fsMp) ["k"] = [] := by decide
+
+theorem stray_parent_now : blocked nowCfg fsNew = false ∧ blocked nowCfg (run (plan nowCfg putNested fsNew) fsNew) = false ∧
+    blocked nowCfg (crashAt 4 (plan nowCfg putNested fsNew) fsNew) = true := by decide
+
+/-! ### 8. PutObject / CopyObject with `x-amz-object-lock-legal-hold: ON`: PutObjectLegalHold (and PutObjectRetention)
+    run by NAME after the publication — the backend as committed publishes the complete new object without the
+    legal hold that protects it -/
+
+def lockCfg : Cfg := { nowCfg with lock := true }
+def putHeld : Req := { op := .put, key := ["k"], hold := true }
+
+theorem hold_after_publication :
+    (view lockCfg (crashAt 6 (plan lockCfg putHeld fsNew) fsNew) ["k"]).map (fun v => (v.data, v.hold)) = some ("new", none) ∧
+    (view lockCfg (run (plan lockCfg putHeld fsNew) fsNew) ["k"]).map (fun v => (v.data, v.hold)) = some ("new", some "new") ∧
+    view lockCfg fsNew ["k"] = none := by decide
+
+theorem crash_atomic_full_false_hold :
+    ¬ (view lockCfg (crashAt 6 (plan lockCfg putHeld fsNew) fsNew) ["k"] = view lockCfg fsNew ["k"] ∨
+       view lockCfg (crashAt 6 (plan lockCfg putHeld fsNew) fsNew) ["k"] = view lockCfg (run (plan lockCfg putHeld fsNew) fsNew) ["k"]) := by
+  have hw := hold_after_publication
+  rintro (h | h)
+  · rw [h, hw.2.2] at hw; exact absurd hw.1 (by decide)
+  · rw [h, hw.2.1] at hw; exact absurd hw.1 (by decide)
+
 end Vgw.Open.C11
